@@ -10,7 +10,7 @@ class C30(ThreadsimProp):
     own_classes = {"done-count", "message-after-done", "status-inconsistent", "stdout-garbled", "stdout-order",
                    "stderr-order", "output-incomplete", "output-too-much", "output-lost", "value-wrong",
                    "value-after-interrupt", "error-missing", "isolation", "done-order", "deadlock", "step-limit",
-                   "server-thread-panicked", "model-desync"}
+                   "server-thread-panicked", "model-desync", "request-lost"}
     rule = ("case = one seeded client workload (1..3 sessions, 4..14 requests: evals that print self-numbering tokens to "
             "stdout/stderr, follow-up evals reading the print counters, definers, cross-session readers, throwers, parse "
             "errors, finite long loops, load-file, completions, lookup, describe, ls-sessions, interrupt, close, unknown/"
